@@ -891,6 +891,98 @@ private theorem decFR_enc (t : Text) (ht : ∀ c ∈ t, Scalar c) :
 theorem utf8_roundtrip (t : Text) (ht : ∀ c ∈ t, Scalar c) : utf8decR (utf8enc t) = t :=
   decFR_enc t ht _ (Nat.le_refl _)
 
+private theorem decFB_char (c : Nat) (hc : Scalar c) (rest : NBytes) (f : Nat)
+    (hf : (utf8encChar c ++ rest).length ≤ f) :
+    ∃ f', rest.length ≤ f' ∧ decFB f (utf8encChar c ++ rest) = c :: decFB f' rest := by
+  obtain ⟨hlt, hns⟩ := hc
+  unfold utf8encChar at hf ⊢
+  by_cases h1 : c < 0x80
+  · simp only [h1, if_true] at hf ⊢
+    cases f with
+    | zero => simp at hf
+    | succ f =>
+      refine ⟨f, by simp at hf; omega, ?_⟩
+      simp [decFB, decStepE, h1]
+  · simp only [h1, if_false] at hf ⊢
+    by_cases h2 : c < 0x800
+    · simp only [h2, if_true] at hf ⊢
+      cases f with
+      | zero => simp at hf
+      | succ f =>
+        refine ⟨f, by simp at hf; omega, ?_⟩
+        have a1 : ¬ (0xC0 + c / 64 < 0x80) := by omega
+        have a2 : 0xC2 ≤ 0xC0 + c / 64 ∧ 0xC0 + c / 64 ≤ 0xDF := by omega
+        have a3 : isCont (0x80 + c % 64) = true := by simp [isCont]; omega
+        have a4 : (0xC0 + c / 64 - 0xC0) * 64 + (0x80 + c % 64 - 0x80) = c := by omega
+        simp only [List.cons_append, List.nil_append, decFB, decStepE, a1, if_false, a2, and_self, if_true, a3, a4]
+        simp
+    · simp only [h2, if_false] at hf ⊢
+      by_cases h3 : c < 0x10000
+      · simp only [h3, if_true] at hf ⊢
+        cases f with
+        | zero => simp at hf
+        | succ f =>
+          refine ⟨f, by simp at hf; omega, ?_⟩
+          have a1 : ¬ (0xE0 + c / 4096 < 0x80) := by omega
+          have a2 : ¬ (0xC2 ≤ 0xE0 + c / 4096 ∧ 0xE0 + c / 4096 ≤ 0xDF) := by omega
+          have a3 : 0xE0 ≤ 0xE0 + c / 4096 ∧ 0xE0 + c / 4096 ≤ 0xEF := by omega
+          have a4 : ok3 (0xE0 + c / 4096) (0x80 + c / 64 % 64) = true := by
+            simp only [ok3, isCont, Bool.and_eq_true, Bool.or_eq_true, decide_eq_true_eq, bne_iff_ne, ne_eq]
+            refine ⟨⟨⟨by omega, by omega⟩, ?_⟩, ?_⟩
+            · by_cases he : 0xE0 + c / 4096 = 0xE0
+              · right; omega
+              · left; exact he
+            · by_cases he : 0xE0 + c / 4096 = 0xED
+              · right; omega
+              · left; exact he
+          have a5 : isCont (0x80 + c % 64) = true := by simp [isCont]; omega
+          have a6 : (0xE0 + c / 4096 - 0xE0) * 4096 + (0x80 + c / 64 % 64 - 0x80) * 64 + (0x80 + c % 64 - 0x80) = c := by
+            omega
+          simp only [List.cons_append, List.nil_append, decFB, decStepE, a1, if_false, a2, a3, and_self, if_true, a4,
+            Bool.not_true, Bool.false_eq_true, a5, a6]
+          simp
+      · simp only [h3, if_false] at hf ⊢
+        cases f with
+        | zero => simp at hf
+        | succ f =>
+          refine ⟨f, by simp at hf; omega, ?_⟩
+          have a1 : ¬ (0xF0 + c / 262144 < 0x80) := by omega
+          have a2 : ¬ (0xC2 ≤ 0xF0 + c / 262144 ∧ 0xF0 + c / 262144 ≤ 0xDF) := by omega
+          have a3 : ¬ (0xE0 ≤ 0xF0 + c / 262144 ∧ 0xF0 + c / 262144 ≤ 0xEF) := by omega
+          have a3' : 0xF0 ≤ 0xF0 + c / 262144 ∧ 0xF0 + c / 262144 ≤ 0xF4 := by omega
+          have a4 : ok4 (0xF0 + c / 262144) (0x80 + c / 4096 % 64) = true := by
+            simp only [ok4, isCont, Bool.and_eq_true, Bool.or_eq_true, decide_eq_true_eq, bne_iff_ne, ne_eq]
+            refine ⟨⟨⟨by omega, by omega⟩, ?_⟩, ?_⟩
+            · by_cases he : 0xF0 + c / 262144 = 0xF0
+              · right; omega
+              · left; exact he
+            · by_cases he : 0xF0 + c / 262144 = 0xF4
+              · right; omega
+              · left; exact he
+          have a5 : isCont (0x80 + c / 64 % 64) = true := by simp [isCont]; omega
+          have a5' : isCont (0x80 + c % 64) = true := by simp [isCont]; omega
+          have a6 : (0xF0 + c / 262144 - 0xF0) * 262144 + (0x80 + c / 4096 % 64 - 0x80) * 4096 +
+              (0x80 + c / 64 % 64 - 0x80) * 64 + (0x80 + c % 64 - 0x80) = c := by omega
+          simp only [List.cons_append, List.nil_append, decFB, decStepE, a1, if_false, a2, a3, a3', and_self, if_true, a4,
+            Bool.not_true, Bool.false_eq_true, a5, a5', a6]
+          simp
+
+private theorem decFB_enc (t : Text) (ht : ∀ c ∈ t, Scalar c) :
+    ∀ f, (utf8enc t).length ≤ f → decFB f (utf8enc t) = t := by
+  induction t with
+  | nil => intro f _; cases f <;> simp [utf8enc, decFB]
+  | cons c cs ih =>
+    intro f hf
+    have henc : utf8enc (c :: cs) = utf8encChar c ++ utf8enc cs := by simp [utf8enc]
+    rw [henc] at hf ⊢
+    obtain ⟨f', hf', heq⟩ := decFB_char c (ht c (by simp)) (utf8enc cs) f hf
+    rw [heq, ih (fun x hx => ht x (by simp [hx])) f' hf']
+
+/-- **UTF-8 round trip for `bytes.decode("utf-8", "backslashreplace")`** (SOCKS5 credentials): no escape is ever
+    produced for well-formed input -/
+theorem utf8_roundtrip_backslashreplace (t : Text) (ht : ∀ c ∈ t, Scalar c) : utf8decBS (utf8enc t) = t :=
+  decFB_enc t ht _ (Nat.le_refl _)
+
 /-- the standard library of the running interpreter: the regenerated `str.isspace` / `str.lower` tables, and
     `a2b_base64` / `str.encode` as transcribed; the UTF-8 "replace" decoder `dec` is the remaining parameter -/
 structure StdLib (L : Lib) (dec : NBytes → Text) : Prop where
@@ -1010,6 +1102,44 @@ theorem standard_credentials_accepted_on_every_path_closed (L : Lib) (hL : StdLi
       cid ∈ (step L (some v) m σ cid (.req true big hs)).1.authd) :=
   standard_credentials_accepted_on_every_path L utf8decR hL.toStd v m σ cid u p hacc
     (scalar_facts _ hsc).1 (scalar_facts _ hsc).2 hu hs t big hval hp
+
+private theorem map_ofNat_toNat (l : NBytes) (h : ∀ b ∈ l, b < 256) :
+    (l.map UInt8.ofNat).map (·.toNat) = l := by
+  induction l with
+  | nil => rfl
+  | cons b bs ih =>
+    have hb : b < 256 := h b (by simp)
+    have : (UInt8.ofNat b).toNat = b := by
+      simp [UInt8.toNat_ofNat']; omega
+    simp [this, ih (fun x hx => h x (by simp [hx]))]
+
+/-- **C20 (accepted pairs are accepted on SOCKS5), closed form**: the RFC 1929 message carries the UTF-8 bytes of a
+    user and a password the validator accepts (any Unicode scalar values, colons and all) — the answer is `01 00` and
+    the handshake continues; `bytes.decode("utf-8", "backslashreplace")` is the transcription, not a parameter. -/
+theorem socks_standard_credentials_accepted (L : Lib)
+    (hsd : L.sockDecode = fun b => utf8decBS (b.map (·.toNat)))
+    (v : Validator) (m : Mode) (σ : State) (cid : Nat) (u p : Text) (hacc : v.accepts L u p = true)
+    (hu : ∀ c ∈ u, Scalar c) (hpw : ∀ c ∈ p, Scalar c) (hp : σ.phase cid = .sAuth) :
+    (step L (some v) m σ cid (.sAuth ((utf8enc u).map UInt8.ofNat) ((utf8enc p).map UInt8.ofNat))).2 = .sAuthOk ∧
+    (step L (some v) m σ cid (.sAuth ((utf8enc u).map UInt8.ofNat) ((utf8enc p).map UInt8.ofNat))).1.phase cid = .sConnect := by
+  have hdec : ∀ t : Text, (∀ c ∈ t, Scalar c) → L.sockDecode ((utf8enc t).map UInt8.ofNat) = t := by
+    intro t ht
+    rw [hsd]
+    simp only
+    rw [map_ofNat_toNat _ (utf8enc_lt t (fun c hc => (ht c hc).1))]
+    exact utf8_roundtrip_backslashreplace t ht
+  exact (validator_accepts_implies_path_accepts L v m σ cid u p hacc).2 _ _ (hdec u hu) (hdec p hpw) hp
+
+-- backslashreplace writes one `\\xNN` per byte of a malformed range
+example : utf8decBS [0xE2, 0x82, 0x41] = [92, 120, 101, 50, 92, 120, 56, 50, 0x41] := by decide +kernel
+
+/-- the fully transcribed token decoder inverts "base64 of the UTF-8 bytes" on every text of scalar values -/
+theorem decodeCredStd_b2a (t : Text) (ht : ∀ c ∈ t, Scalar c) : decodeCredStd (b2a (utf8enc t)) = some t := by
+  have hb : ∀ b ∈ utf8enc t, b < 256 := utf8enc_lt t (fun c hc => (ht c hc).1)
+  have hchars := b2a_chars _ hb
+  unfold decodeCredStd
+  rw [utf8enc_ascii _ (fun c hc => isB64_lt c (hchars c hc)), b64_roundtrip _ hb]
+  simp [utf8_roundtrip t ht]
 
 -- the decoder does replace: a truncated 3-byte sequence is ONE U+FFFD, a stray continuation byte another one
 example : utf8decR [0xE2, 0x82, 0x41, 0x80] = [0xFFFD, 0x41, 0xFFFD] ∧ utf8decR (utf8enc [0x20AC, 0x1D11E]) = [0x20AC, 0x1D11E] := by
